@@ -480,3 +480,62 @@ Proof.
       * apply in_vars_true. split; [apply arg_var_pos|exact Hv].
       * apply Hinv; [apply arg_var_pos|now split].
 Qed.
+
+(* ------------------------------------------------------------------ *)
+(** * Small helpers added later *)
+
+Lemma some_inj A (x y : A) : Some x = Some y -> x = y.
+Proof. intros H. now injection H. Qed.
+
+(* splitting per-argument clause groups *)
+Lemma vmodels_args_app n m (f g : nat -> cnf) :
+  (forall a, a < n -> vmodels m (f a ++ g a) = true) <->
+  (forall a, a < n -> vmodels m (f a) = true) /\
+  (forall a, a < n -> vmodels m (g a) = true).
+Proof.
+  split.
+  - intros H. split; intros a Ha; specialize (H a Ha); apply vmodels_app_iff in H; tauto.
+  - intros [H1 H2] a Ha. apply vmodels_app_iff. split; [now apply H1|now apply H2].
+Qed.
+
+(* ------------------------------------------------------------------ *)
+(** * Layout: well-classified literals *)
+
+Definition good_lit (e : enc) (n : nat) (range : bool) (l : lit) : Prop :=
+  l <> 0%Z /\ var_class e n range (lit_var l).
+Definition all_good (e : enc) (n : nat) (range : bool) (C : cnf) : Prop :=
+  Forall (Forall (good_lit e n range)) C.
+
+Lemma all_good_elim e n r C :
+  all_good e n r C ->
+  forall c l, In c C -> In l c -> l <> 0%Z /\ var_class e n r (lit_var l).
+Proof.
+  intros H c l Hc Hl. unfold all_good in H. rewrite Forall_forall in H.
+  specialize (H c Hc). rewrite Forall_forall in H. exact (H l Hl).
+Qed.
+
+Lemma all_good_app e n r C D :
+  all_good e n r C -> all_good e n r D -> all_good e n r (C ++ D).
+Proof. intros HC HD. apply Forall_app. now split. Qed.
+
+Lemma all_good_over_args e n r f :
+  (forall a, a < n -> all_good e n r (f a)) -> all_good e n r (over_args n f).
+Proof.
+  intros H. apply Forall_forall. intros c Hc. apply in_over_args in Hc.
+  destruct Hc as [a [Ha Hc]]. specialize (H a Ha). unfold all_good in H.
+  rewrite Forall_forall in H. now apply H.
+Qed.
+
+Lemma all_good_map A e n r (g : A -> clause) l :
+  (forall x, In x l -> Forall (good_lit e n r) (g x)) -> all_good e n r (map g l).
+Proof. intros H. apply Forall_map, Forall_forall. exact H. Qed.
+
+Lemma good_clause_map A e n r (g : A -> lit) l :
+  (forall x, In x l -> good_lit e n r (g x)) -> Forall (good_lit e n r) (map g l).
+Proof. intros H. apply Forall_map, Forall_forall. exact H. Qed.
+
+Lemma good_zlit e n r v : 0 < v -> var_class e n r v -> good_lit e n r (zlit v).
+Proof. intros Hv Hc. split; [now apply zlit_nonzero|now rewrite lit_var_zlit]. Qed.
+
+Lemma good_znlit e n r v : 0 < v -> var_class e n r v -> good_lit e n r (znlit v).
+Proof. intros Hv Hc. split; [now apply znlit_nonzero|now rewrite lit_var_znlit]. Qed.
